@@ -378,7 +378,7 @@ def build(u, variant=None):
         ins["before#1:self.prepare_on_conflict"] = ("proof { assert(insert.columns@.subrange(0, insert.columns@.len() as int) =~= insert.columns@); if insert.source is Some && insert.source->Some_0 is Values { let v = insert.source->Some_0->Values_0; lemma_l_rows_empty(v@); assert(v@.subrange(0, v@.len() as int) =~= v@); }"
                                                   " assert(sql.tr() == " + INSERT_BODY_PUSHED.replace("s.", "insert.").replace("pre", "tb") + "); }\n" + ins["before#1:self.prepare_on_conflict"])
         u.fn(QB, "trait QueryBuilder", "prepare_insert_statement", props=P, key="QueryBuilder::prepare_insert_statement", vpath="Dflt::prepare_insert_statement", prefix="#[verifier::rlimit(60)]\n    ",
-             rules=[r_dynw, r_fold, r_fmt, make_r_sub("R-opaque", r"col\.prepare\(sql, self\.quote\(\)\)", "self.prepare_iden(col, sql)"),
+             rules=[r_dynw, r_fold, r_fmt, make_r_sub("R-opaque", r"\b([a-z_]+)\.prepare\(sql, self\.quote\(\)\)", r"self.prepare_iden(\1, sql)"),
                     make_r_sub("R-path", r"self\.prepare_select_statement\(select_query\.deref\(\), sql\)", "self.prepare_select_statement_sub(Self::vbox_ref(select_query), sql)")],
              spec="ensures\n    // every clause given, once, in grammar order; columns, rows and cells in call order\n    final(sql).tr() == old(sql).tr() + insert_events(*insert),",
              loops=["invariant it1.index@ <= insert.columns@.len(), first == (it1.index@ == 0), sql.tr() == tc + l_idens(insert.columns@.subrange(0, it1.index@ as int)),",
@@ -834,7 +834,7 @@ pub open spec fn returning_events(r: Option<ReturningClause>) -> Seq<Ev> {
                   "before#1:let mut first = true;": "let ghost ta = sql.tr();\nproof { lemma_l_updstrats_empty(update_strats@); assert(ta + Seq::<Ev>::empty() =~= ta); }",
                   "loop1-end": "proof { lemma_l_updstrats_step(update_strats@, it1.index@ as int); assert(sql.tr() =~= ta + l_updstrats(update_strats@.subrange(0, it1.index@ + 1))); }",
                   "body-end": "let ghost a_ = *on_conflict_action;\nproof { match a_ { Some(OnConflictAction::Update(us)) => { lemma_l_updstrats_empty(us@); } _ => {} } assert(sql.tr() =~= t0 + Self::action_events_common(*on_conflict_action)); }"}
-    r_col = make_r_sub("R-opaque", r"\bcol\.prepare\(sql, self\.quote\(\)\)", "self.prepare_iden(col, sql)", min_count=2)
+    r_col = make_r_sub("R-opaque", r"\b([a-z_]+)\.prepare\(sql, self\.quote\(\)\)", r"self.prepare_iden(\1, sql)", min_count=2)
     u.fn(QB, "trait QueryBuilder", "prepare_on_conflict_action_common", props=P, key="QueryBuilder::prepare_on_conflict_action_common", vpath="DfltU::prepare_on_conflict_action_common",
          rules=[r_dynw, r_fold, r_fmt, r_col],
          spec="ensures\n    // the action keyword(s), then the assignments in call order\n    final(sql).tr() == old(sql).tr() + Self::action_events_common(*on_conflict_action),",
@@ -857,7 +857,7 @@ pub open spec fn returning_events(r: Option<ReturningClause>) -> Seq<Ev> {
     u.fn(MYQ, "impl QueryBuilder for MysqlQueryBuilder", "prepare_on_conflict_do_update_keywords", props=P, key="MysqlQueryBuilder::prepare_on_conflict_do_update_keywords", vpath="MysqlQueryBuilderU::prepare_on_conflict_do_update_keywords",
          rules=[r_dynw, r_fmt], spec="ensures final(sql).tr() == old(sql).tr().push(lit(\" UPDATE \")),")
     u.fn(MYQ, "impl QueryBuilder for MysqlQueryBuilder", "prepare_on_conflict_action", props=P, key="MysqlQueryBuilder::prepare_on_conflict_action", vpath="MysqlQueryBuilderU::prepare_on_conflict_action",
-         rules=[r_dynw, r_fold, r_fmt, make_r_sub("R-opaque", r"\bpk_col\.prepare\(sql, self\.quote\(\)\)", "self.prepare_iden(pk_col, sql)", min_count=2)],
+         rules=[r_dynw, r_fold, r_fmt, make_r_sub("R-opaque", r"\b([a-z_]+)\.prepare\(sql, self\.quote\(\)\)", r"self.prepare_iden(\1, sql)", min_count=2)],
          spec=[("""ensures
     // every action other than a key-less DO NOTHING: the common form; DO NOTHING with key columns is the no-op `UPDATE k = k, ..`
     !(*on_conflict_action matches Some(OnConflictAction::DoNothing(pks)) && pks@.len() == 0) ==> final(sql).tr() == old(sql).tr() + (match *on_conflict_action {
@@ -903,7 +903,7 @@ pub open spec fn cte_events(c: CommonTableExpression) -> Seq<Ev> { cte_events_wi
     u.fn(QB, "trait QueryBuilder", "prepare_with_query_clause_common_table", props=P, key="QueryBuilder::prepare_with_query_clause_common_table", vpath="DfltC::prepare_with_query_clause_common_table",
          rules=[r_dynw, r_fmt,
                 make_r_sub("R-opaque", r"cte\.table_name\s*\.as_ref\(\)\s*\.unwrap\(\)\s*\.prepare\(sql, self\.quote\(\)\);", "self.prepare_iden(cte.table_name.as_ref().unwrap(), sql);"),
-                make_r_sub("R-opaque", r"\bcol\.prepare\(sql, self\.quote\(\)\)", "self.prepare_iden(col, sql)"),
+                make_r_sub("R-opaque", r"\b([a-z_]+)\.prepare\(sql, self\.quote\(\)\)", r"self.prepare_iden(\1, sql)"),
                 make_r_sub("R-forghost", r"for col in &cte\.cols", "for col in itc: cte.cols.iter()"),
                 make_r_sub("R-path", r"self\.prepare_with_query_clause_materialization\(cte, sql\)", "self.prepare_with_query_clause_materialization_(cte, sql)"),
                 make_r_sub("R-path", r"cte\.query\.as_ref\(\)\.unwrap\(\)\.deref\(\)", "Self::vbox_ref(cte.query.as_ref().unwrap())")],
